@@ -192,7 +192,9 @@ func jwkIsPrivateKey(jwk jwk.Key) bool {
 // HTU returns the htu claim of the DPoP token
 func (t DPoP) HTU() string {
 	if v, ok := t.Token.Get(HTUKey); ok {
-		return v.(string)
+		if s, ok := v.(string); ok {
+			return s
+		}
 	}
 	return ""
 }
@@ -200,7 +202,9 @@ func (t DPoP) HTU() string {
 // HTM returns the htm claim of the DPoP token
 func (t DPoP) HTM() string {
 	if v, ok := t.Token.Get(HTMKey); ok {
-		return v.(string)
+		if s, ok := v.(string); ok {
+			return s
+		}
 	}
 	return ""
 }
@@ -230,7 +234,11 @@ func (t DPoP) Match(jkt string, method string, url string) (bool, error) {
 }
 
 func strip(raw string) string {
-	url, _ := url.Parse(raw)
+	url, err := url.Parse(raw)
+	if err != nil {
+		// not a URL, compared as is
+		return raw
+	}
 	url.Scheme = "https"
 	url.Host = strings.Split(url.Host, ":")[0]
 	url.RawQuery = ""
